@@ -27,6 +27,8 @@ def run(ctx):
     scen += rc.cover_scenarios(ctx, 'OciRegistryCover_imm.cfg', sample=1800 if quick else None)
     # the same for the universe with the index that names unreadable bytes as an image manifest
     scen += rc.cover_scenarios(ctx, 'OciRegistryCover_broken.cfg', sample=700 if quick else None)
+    # and for the universe where the same bytes are stored both as a blob and as a manifest
+    scen += rc.cover_scenarios(ctx, 'OciRegistryCover_dual.cfg', sample=2000 if quick else None)
     sp = rc.write_scenarios(ctx, scen)
     t = os.path.join(td, 'tlc-imm.ndjson')
     rc.run_reg(ctx, vh, t, stacks='mem', scen=sp)
